@@ -11,7 +11,7 @@ import random as _pyrandom
 from pvc.contract import Contract
 from pvc.sym import And, Or, Not, Implies, eq, lt, le, is_sym
 from . import fx
-from .net import Net, build_dcop, global_cost, local_cost, HandlerRaised
+from .net import Net, build_dcop, global_cost, local_cost, HandlerRaised, get_spec, make_net
 
 
 def not_worse(mode, new, old):
@@ -60,7 +60,7 @@ def cycle_assignments(net, k):
 def h_mgm_cycles(env):
     p = env.params
     algo = p.get("algo", "mgm")
-    spec = SPECS[p["spec"]]
+    spec = get_spec(env, p, SPECS)
     k = p["stop_cycle"]
     mode = env.choice("mode", p.get("modes", ["min", "max"]))
     variables, cons, tabs, varcost = build_dcop(env, spec)
@@ -75,7 +75,9 @@ def h_mgm_cycles(env):
         env.real = _real
     ap = dict(p.get("algo_params", {}))
     ap["stop_cycle"] = k
-    net = Net(env, algo, mode, variables, cons, ap)
+    net = make_net(env, algo + ".computations-can-be-built", algo, mode, variables, cons, ap)
+    if net is None:
+        return
     net.cycle_values = {}
     net.move_info = {}
     net.gain_info = {}
@@ -255,6 +257,11 @@ def _shapes_mgm(tier, prop=None):
         dict(spec="pair2", stop_cycle=2, algo_params=dict(break_mode="random")),
         dict(spec="chain3", stop_cycle=2, modes=["min"], algo_params=dict(break_mode="random")),
     ]
+    # 4-6 variables, more cycles: decided by the sampled native pass only
+    s += [dict(spec="rand4", stop_cycle=4, sample_only=True, sample_factor=4, sample_part=0, policy="random", sched_seed=1),
+          dict(spec="rand5", stop_cycle=4, sample_only=True, sample_factor=4, sample_part=1, nary=True),
+          dict(spec="rand5", stop_cycle=3, sample_only=True, sample_factor=4, sample_part=2, algo_params=dict(break_mode="random"), policy="lifo", interleave_start=True),
+          dict(spec="rand6", stop_cycle=3, sample_only=True, sample_factor=3, sample_part=3, connected=False, policy="random", sched_seed=2, start_order="rev")]
     if tier == "thorough":
         s += [
             dict(spec="chain3", stop_cycle=2, modes=["max"], algo_params=dict(break_mode="random")),
